@@ -323,8 +323,25 @@ func genLiteral(r *common.Rng) string {
 		case 7:
 			return esc() + "U" + hexd(8)
 		case 8: // surrogates
-			hi := fmt.Sprintf("%04x", 0xD800+r.Intn(0x400))
-			lo := fmt.Sprintf("%04x", 0xDC00+r.Intn(0x400))
+			// boundary-directed: both halves at the corners of their ranges
+			// (D800/DBFF, DC00/DFFF), just outside (D7FF, E000), or random
+			hv := common.Pick(r, []int{0xD800, 0xD800, 0xDBFF, 0xDBFF, 0xD801, 0xDBFE, 0xD800 + r.Intn(0x400), 0xD800 + r.Intn(0x400)})
+			lv := common.Pick(r, []int{0xDC00, 0xDC00, 0xDFFF, 0xDFFF, 0xDC01, 0xDFFE, 0xDC00 + r.Intn(0x400), 0xDC00 + r.Intn(0x400)})
+			if r.Chance(1, 10) {
+				hv = common.Pick(r, []int{0xD7FF, 0xDC00, 0xE000})
+			}
+			if r.Chance(1, 10) {
+				lv = common.Pick(r, []int{0xDBFF, 0xE000, 0xD7FF, 0x0041})
+			}
+			hexf := "%04x"
+			if r.Bool() {
+				hexf = "%04X"
+			}
+			hi := fmt.Sprintf(hexf, hv)
+			lo := fmt.Sprintf(hexf, lv)
+			if r.Chance(1, 6) { // eight-digit spelling of a half
+				return esc() + "U0000" + hi + esc() + "u" + lo
+			}
 			switch r.Intn(5) {
 			case 0:
 				return esc() + "u" + hi
@@ -474,6 +491,37 @@ func fixedCases() []string {
 		"\"\"\"\n\"\"\"x\n\"\"\"", "\"\"\"\na\"\"\"", "#\"\"\"\na\\#n\n\"\"\"#", "\"\"\"a\n\"\"\"", "\"\"\"\r", "\"\"\"\n a\n \"\"\"", `"\(x)"`, `"a\("`, `"\(`, `#"""#`, `##"""##`, `#""#`, `'''`, "'''\n'''"}
 	for _, l := range lits {
 		add("U " + common.Hex(l))
+	}
+	// surrogate escapes at the corners of both ranges: pairs in all four corner
+	// combinations, neighbours, lone halves, reversed pairs; string and bytes
+	// literals, 0..2 hashes, single line and multi-line
+	halvesHi := []string{"d800", "dbff", "D801", "DBFE"}
+	halvesLo := []string{"dc00", "dfff", "DC01", "DFFE"}
+	for _, q := range []string{`"`, `'`} {
+		for nh := 0; nh <= 2; nh++ {
+			h := strings.Repeat("#", nh)
+			e := `\` + h + "u"
+			wrap := func(body string) []string {
+				return []string{h + q + body + q + h, h + q + q + q + "\n" + body + "\n" + q + q + q + h}
+			}
+			var bodies []string
+			for _, hi := range halvesHi {
+				for _, lo := range halvesLo {
+					bodies = append(bodies, e+hi+e+lo, "a"+e+hi+e+lo+"z", e+lo+e+hi)
+				}
+				bodies = append(bodies, e+hi, e+hi+"x", e+hi+e+"0041", e+hi+e+"dbff", e+hi+e+"e000", e+hi+e+hi)
+			}
+			for _, lo := range halvesLo {
+				bodies = append(bodies, e+lo, "x"+e+lo)
+			}
+			bodies = append(bodies, e+"d7ff"+e+"dc00", e+"e000"+e+"dc00", e+"dc00"+e+"dc00",
+				`\`+h+"U0000d800"+e+"dc00", `\`+h+"U0000dbff"+`\`+h+"U0000dfff", `\`+h+"U0000dc00")
+			for _, b := range bodies {
+				for _, l := range wrap(b) {
+					add("U " + common.Hex(l))
+				}
+			}
+		}
 	}
 	return cs
 }
